@@ -43,6 +43,7 @@ K(j)    == <<"k", j>>
 ZeroV   == <<"z">>
 
 NoPend  == <<>>
+Contiguous(cs) == LET R == Range(cs) IN SetMax(R) - SetMin(R) + 1 = Cardinality(R)
 
 St == [heap |-> heap, allocs |-> allocs, live |-> live]
 
@@ -176,7 +177,6 @@ PhysT(S, h) ==
                 S1    == IF IsMaskedT(S, t) THEN WriteMask(S0, t.al, ncell, MaskOf(S, t)) ELSE S0
             IN SetLive(S1, h, [t EXCEPT !.cells = ncell, !.pend = NoPend])
 
-Contiguous(cs) == LET R == Range(cs) IN SetMax(R) - SetMin(R) + 1 = Cardinality(R)
 (* a physical move of data happens (used to name the circumstances of listed findings) *)
 PhysMoves(S, h) == LET t == S.live[h] IN t.pend # NoPend /\ t.shape # <<>>
 PhysTags(S, h) ==
@@ -184,6 +184,11 @@ PhysTags(S, h) ==
     ELSE (IF S.live[h].ord = "F" THEN {"phys-colmajor"} ELSE {})
          \cup (IF S.live[h].view /\ ~Contiguous(S.live[h].cells) THEN {"phys-view-noncontig"} ELSE {})
          \cup (IF S.live[h].view THEN {"phys-view"} ELSE {})
+         (* the arrangement to restore is itself not the plain storage order (a SafeT copy of a lazily
+            transposed tensor, a clone with an inherited pending transpose) *)
+         \cup (IF S.live[h].pend[1].np THEN {"phys-old-nonstandard"} ELSE {})
+         (* a raw copy of a non-contiguous view keeps the view's strided storage window (listed finding) *)
+         \cup (IF S.live[h].wide /\ ~S.live[h].view THEN {"strided-result"} ELSE {})
 Tagged(o, tags) == IF tags = {} THEN o ELSE Out(o.S, [o.res EXCEPT !.x = [tags |-> tags]])
 
 UTT(S, h) ==
@@ -205,10 +210,10 @@ LazyT(S, h, p) ==   \* p a valid non-identity permutation, tensor not scalar-equ
                      t1 == S1.live[h]
                  IN SetLive(S1, h, [t1 EXCEPT !.shape = TransShape(t1.shape, p),
                                              !.cells = TransCells(t1.shape, t1.cells, p),
-                                             !.pend  = <<[shape |-> t1.shape, cells |-> t1.cells, perm |-> p]>>])
+                                             !.pend  = <<[shape |-> t1.shape, cells |-> t1.cells, perm |-> p, np |-> FALSE]>>])
        ELSE SetLive(S, h, [t EXCEPT !.shape = TransShape(t.shape, p),
                                     !.cells = TransCells(t.shape, t.cells, p),
-                                    !.pend  = <<[shape |-> t.shape, cells |-> t.cells, perm |-> p]>>])
+                                    !.pend  = <<[shape |-> t.shape, cells |-> t.cells, perm |-> p, np |-> FALSE]>>])
 
 TT(S, h, p0) ==
     LET t == S.live[h]
@@ -248,8 +253,10 @@ SafeTT(S, h, p0) ==
                 n  == [shape |-> IF id THEN t.shape ELSE TransShape(t.shape, p),
                        cells |-> IF id THEN c.cells ELSE TransCells(t.shape, c.cells, p),
                        view  |-> FALSE,
-                       pend  |-> <<[shape |-> t.shape, cells |-> c.cells, perm |-> p]>>,
-                       ord   |-> t.ord, al |-> c.al, wide |-> FALSE]
+                       (* np: the saved arrangement is the SOURCE's current one, which is itself lazily permuted
+                          when the source has a pending transpose (named for a listed finding) *)
+                       pend  |-> <<[shape |-> t.shape, cells |-> c.cells, perm |-> p, np |-> t.pend # NoPend]>>,
+                       ord   |-> t.ord, al |-> c.al, wide |-> t.wide \/ ~Contiguous(t.cells)]
             IN OkH(AddLive(c.S, n), NewH(S))
 
 RollAxisT(S, h, axis, start, safe) ==
@@ -285,9 +292,9 @@ CloneT(S, h) ==
         (* the clone keeps a pending transpose: undoing it restores the clone's own original arrangement *)
         mp(cs) == [k \in 1..Len(cs) |-> c.cells[CHOOSE j \in 1..Len(t.cells) : t.cells[j] = cs[k]]]
         pd == IF t.pend = NoPend THEN NoPend
-              ELSE <<[shape |-> t.pend[1].shape, cells |-> mp(t.pend[1].cells), perm |-> <<>>]>>   \* a clone does not remember the axes
+              ELSE <<[shape |-> t.pend[1].shape, cells |-> mp(t.pend[1].cells), perm |-> <<>>, np |-> t.pend[1].np]>>   \* a clone does not remember the axes
     IN OkH(AddLive(c.S, [shape |-> t.shape, cells |-> c.cells, view |-> FALSE,
-                         pend |-> pd, ord |-> t.ord, al |-> c.al, wide |-> FALSE]), NewH(S))
+                         pend |-> pd, ord |-> t.ord, al |-> c.al, wide |-> t.wide \/ ~Contiguous(t.cells)]), NewH(S))
 
 (* Copy(dst, src): element k of dst := element k of src (logical row-major) *)
 CopyT(S, d, s) ==
@@ -354,7 +361,8 @@ ReshapeT(S, h, nsh) ==
                 t1 == S1.live[h]
                 fl == FlatOrder(t1.shape, t1.cells, t1.ord)
             IN Tagged(Out(SetLive(S1, h, [t1 EXCEPT !.shape = nsh, !.cells = FromFlat(nsh, fl, t1.ord)]),
-                          Res("ok", t.view, 0, <<>>, <<>>)), PhysTags(S, h))
+                          Res("ok", t.view, 0, <<>>, <<>>)),
+                      PhysTags(S, h) \cup (IF t.wide /\ ~t.view THEN {"strided-result"} ELSE {}))
 
 (***************************************************************************)
 (* Elementwise operations and their option modes.                          *)
@@ -380,7 +388,7 @@ FreshResultLike(S, tu, shape, ord, vals) ==
         init == [i \in 1..Len(vals) |-> vals[CHOOSE k \in 1..Len(vals) : f[k] = start + i - 1]]
         a == AllocL(S, init, "l")
         t == [shape |-> shape, cells |-> f, view |-> FALSE, pend |-> NoPend, ord |-> ord,
-              al |-> Len(S.allocs) + 1, wide |-> FALSE]
+              al |-> Len(S.allocs) + 1, wide |-> tu.wide \/ ~Contiguous(tu.cells)]
     IN OkH(AddLive(a.S, t), NewH(S))
 
 (* the result of an operation on masked operands is masked where any operand is *)
@@ -404,7 +412,7 @@ InheritPend(S, o, u, et) ==
          IN IF t.pend = NoPend \/ Len(t.cells) # Len(r.cells) THEN o
             ELSE LET mp(cs) == [k \in 1..Len(cs) |-> r.cells[CHOOSE j \in 1..Len(t.cells) : t.cells[j] = cs[k]]]
                  IN Out(SetLive(o.S, o.res.h, [r EXCEPT !.pend = <<[shape |-> t.pend[1].shape, cells |-> mp(t.pend[1].cells),
-                                                                   perm |-> <<>>]>>]), o.res)
+                                                                   perm |-> <<>>, np |-> t.pend[1].np]>>]), o.res)
 
 Deliver(S, shape, ord, vals, mode, d, u, et, mayRefuse) ==
     CASE mode = "safe"   -> LET o == IF et = "" /\ u # 0 /\ Len(S.live[u].cells) = Len(vals)
